@@ -117,9 +117,21 @@ def _cases(draw):
             for i, ss in enumerate(tsyn)]
     lexicons = [lex]
     if tsyn:
-        lexicons.append({'id': 't', 'version': '1', 'label': 'translation', 'language': 'es',
-                         'email': 'e', 'license': 'l', 'meta': None, 'entries': tent,
-                         'synsets': tsyn})
+        # 't' declares several dependencies (one of them never installed): the default expand
+        # set of Wordnet('t:1') is built from them
+        for k in range(3):
+            lexicons.append({'id': f'u{k}', 'version': '1', 'label': f'dependency {k}',
+                             'language': 'en', 'email': 'e', 'license': 'l', 'meta': None,
+                             'synsets': [{'id': f'u{k}-s0', 'ili': tsyn[0]['ili'],
+                                          'partOfSpeech': tsyn[0]['partOfSpeech'],
+                                          'meta': None}]})
+        tlex = {'id': 't', 'version': '1', 'label': 'translation', 'language': 'es',
+                'email': 'e', 'license': 'l', 'meta': None, 'entries': tent, 'synsets': tsyn}
+        if version != '1.0':
+            tlex['requires'] = [{'id': 'u1', 'version': '1'}, {'id': 'd', 'version': '1'},
+                                {'id': 'zz', 'version': '9'}, {'id': 'u0', 'version': '1'},
+                                {'id': 'u2', 'version': '1'}, {'id': 'yy', 'version': '9'}]
+        lexicons.append(tlex)
     return {'resource': {'lmf_version': version, 'lexicons': lexicons}}
 
 
@@ -177,7 +189,7 @@ def oracle(case):
     seeds = list(range(8 if os.environ.get('WNV_TIER') == 'thorough' else 4))
     configs = [['files'], ['d:1', ''], [None, None]]
     if len(case['resource']['lexicons']) > 1:
-        configs += [['t:1', ''], ['t:1', 'd:1'], ['t:1 d:1', None]]
+        configs += [['t:1', ''], ['t:1', 'd:1'], ['t:1 d:1', None], ['t:1', None]]
     outs = {}
     procs = []
     for hs in seeds:
